@@ -373,7 +373,7 @@ def run_batch(prop, progs, feat, release, rep, stats, budget_search):
                     stats["events"][e[0]] = stats["events"].get(e[0], 0) + 1
                 if o["ret"] == "panic":
                     stats["panics_caught"] += 1
-        hits = corr.oracle_hits(il)
+        hits = corr.oracle_hits(il) + corr.policy_hits(l, il)
         rel = [x for x in hits if prop in corr.ORACLE_PROPS.get(x[1], [])]
         other = [x for x in hits if x not in rel]
         for x in other:
@@ -390,7 +390,7 @@ def run_batch(prop, progs, feat, release, rep, stats, budget_search):
                 def still(lines, kind0=kind0):
                     nm = lines[0][len("program "):].strip()
                     out = corr.run_impl([(nm, lines)], feat, release).get(nm, [])
-                    return any(k == kind0 for _, k, _ in corr.oracle_hits(out))
+                    return any(k == kind0 for _, k, _ in corr.oracle_hits(out) + corr.policy_hits(lines, out))
                 small = corr.shrink(l, still)
                 nm = small[0][len("program "):].strip()
                 out = corr.run_impl([(nm, small)], feat, release).get(nm, [])
@@ -482,7 +482,7 @@ def search(prop, lines, feat, release, budget, stats):
     stats["search_programs"] += len(cands)
     out = corr.run_impl(cands, feat, release)
     for n, l in cands:
-        hits = [x for x in corr.oracle_hits(out.get(n, [])) if prop in corr.ORACLE_PROPS.get(x[1], [])]
+        hits = [x for x in corr.oracle_hits(out.get(n, [])) + corr.policy_hits(l, out.get(n, [])) if prop in corr.ORACLE_PROPS.get(x[1], [])]
         if hits:
             return l, out[n], hits[0][1]
     return None
@@ -1119,7 +1119,7 @@ def lists_probe(prop, tier, seed, rep, vals_line=None):
     return cov
 
 
-EXTRA_STEPS = {"C16": words_probe, "C15": policy_probe, "C03": layout_and_cycles_probe, "C13": layout_probe, "C11": lists_probe, "C02": lists_probe, "C09": words_probe}
+EXTRA_STEPS = {"C16": words_probe, "C15": policy_probe, "C03": layout_and_cycles_probe, "C13": layout_probe, "C11": lists_probe, "C02": lists_probe, "C09": words_probe, "C14": words_probe}
 
 
 def simple_probe_check(prop, tier, seed, rep, runner):
@@ -1340,7 +1340,7 @@ def run_C19(prop, tier, seed, rep):
                       "%d of %d runs differ from the sequential model run" % (n, nt, bad, total), True, signature="threads-interference")
     rc, out = sh([corr.harness_bin(F_ALL), "teardown"], timeout=600)
     tl = [l for l in out.splitlines() if l.startswith("teardown ") and l != "teardown done"]
-    badt = [l for l in tl if "PANICKED" in l or not l.endswith("double_drops=0")] if "teardown done" in out else ["teardown probe crashed rc=%s" % rc]
+    badt = [l for l in tl if "PANICKED" in l or not l.endswith("double_drops=0") or ("stuck_flags=" in l and "stuck_flags=0 " not in l)] if "teardown done" in out else ["teardown probe crashed rc=%s" % rc]
     if rc != 0 or badt:
         rep.violation("impl-vs-property", ["# " + x for x in (badt or tl[-3:])], "thread teardown scenario failed: %s" % (badt[0] if badt else "crash rc=%s" % rc), True,
                       signature="teardown")
